@@ -336,7 +336,7 @@ class KeySet(Val):
 
 
 class _MethodTable(Contract):
-    props = ('C02',)
+    props = ('C02', 'C11')
     file = 'ombott/router/radirouter.py'
     assumptions = ('the method table is a dict name -> RouteMethod; checked for method lists of length 1 and 2 and a single str '
                    '(RadiRouter.add passes the upper-cased list of the registration: any length behaves like repeated length 1)',)
@@ -467,14 +467,25 @@ class AddMethod(_MethodTable):
         self.table_pre(X)
         c = self
 
+        def names_of(arg):
+            if isinstance(arg, VStr):
+                return [arg]
+            if isinstance(arg, (VList, VTuple)) and all(isinstance(i, VStr) for i in arg.items):
+                return list(arg.items)
+            raise Unsupported('method list argument of a callee')
+
         def _set_methods(X, args, kwargs):
-            has, val = c.table_after_set()
-            c.m.has, c.m.val = has, val
+            # callee contract (proved: SetMethods): binds exactly the names it is GIVEN, in the table as it is NOW
+            X.prove('call.set_methods_with_this_handler', z3.BoolVal(len(args) >= 3 and args[2] is c.handler))
+            for n in names_of(args[1]):
+                c.m.has = z3.Store(c.m.has, n.t, z3.BoolVal(True))
+                c.m.val = z3.Store(c.m.val, n.t, c.route_method(n.t, c.handler.t))
             return NONE
 
         def _raise_if_registered(X, args, kwargs):
-            # callee contract (proved below): raises RouteMethodError iff one of the names is registered; changes nothing
-            if X.decide(z3.Or(*[z3.Select(c.has0, n.t) for n in c.names])):
+            # callee contract (proved: RaiseIfRegistered): raises RouteMethodError iff one of the names it is GIVEN is registered
+            # in the table as it is NOW; changes nothing
+            if X.decide(z3.Or(*[z3.Select(c.m.has, n.t) for n in names_of(args[1])])):
                 X.raise_(c.RouteMethodError, 'registered')
             return NONE
         self.stubs = {'Route._set_methods': _set_methods, 'Route._raise_if_registered': _raise_if_registered}
